@@ -246,7 +246,7 @@ def model_build(timeout=900):
             open(os.path.join(OCAML_BUILD, f), "w").write(open(os.path.join(VERIF, "ocaml", f)).read())
     run(["coqc", "-Q", THEORIES, "PegV", os.path.join(VERIF, "ocaml/Extract.v"), "-o",
          os.path.join(OCAML_BUILD, "Extract.vo")], cwd=OCAML_BUILD, check=True, timeout=timeout)
-    run("ocamlfind ocamlopt -w -a -package str -linkpkg model.mli model.ml conv.ml driver.ml -o vp-model",
+    run("ocamlfind ocamlopt -w -a -package str -linkpkg model.mli model.ml conv.ml sexp.ml driver.ml -o vp-model",
         cwd=OCAML_BUILD, check=True, timeout=timeout)
     open(stamp, "w").write(key)
     return exe
@@ -379,11 +379,6 @@ TRUSTED_BASE = [
 
 
 def load_cfg(ctx):
-    """Configuration lines for the model driver, from the regenerated facts."""
+    """facts as found by the translator (for reporting)"""
     text = open(os.path.join(THEORIES, "Extracted.v")).read()
-    vals = dict(re.findall(r"^Definition (\w+) : bool := (true|false)\.", text, re.M))
-    ctx.facts = vals
-
-    def bit(n):
-        return "1" if vals.get(n) == "true" else "0"
-    ctx.pretty_cfg_line = "pretty_cfg\t%s\t%s\t%s" % (bit("pretty_iter_stop_ge"), bit("pretty_find_end_ge"), bit("pretty_col_by_position"))
+    ctx.facts = dict(re.findall(r"^Definition x_(\w+?) : \w+ := (\w+)\.", text, re.M))
